@@ -29,6 +29,10 @@ type Case struct {
 	// Wrap: the stream starts shortly before 2^32 ms and runs across the roll-over of the 32-bit RTMP timestamp
 	// (no other jumps in such a case; "later" is meant in serial-number arithmetic).
 	Wrap bool `json:"wrap,omitempty"`
+	// AscChange: the AAC configuration changes mid-stream ("ash" items with Variant != 0).  Such a case has no RTSP
+	// consumer: lal announces the audio configuration once, in the session description (C02's registered finding
+	// R1/sdp-audio-config/first-config-after-mid-stream-change); the TS legs must follow the change.
+	AscChange bool `json:"asc_change,omitempty"`
 	// AscExt selects the bytes that follow the 2-byte head of the AudioSpecificConfig (see ascBytes).
 	AscExt int `json:"asc_ext,omitempty"`
 }
@@ -53,6 +57,19 @@ func ascBytes(cd gen.Codecs, ext int) []byte {
 		b = append(b, 0)
 	}
 	return b
+}
+
+// ascFor is the AudioSpecificConfig carried by an "ash" item of the given variant: variant 0 is the stream's own
+// configuration, the others (gen.AscVariant) differ in sampling-frequency index and channel configuration; the
+// bytes behind the 2-byte head follow the case's AscExt in both.
+func ascFor(cd gen.Codecs, ext, variant int) []byte {
+	if cd.Audio != "aac" {
+		return nil
+	}
+	if variant == 0 {
+		return ascBytes(cd, ext)
+	}
+	return append(append([]byte(nil), gen.AscVariant(cd, variant)...), ascBytes(cd, ext)[2:]...)
 }
 
 // serialLE: a <= b in serial-number arithmetic (RFC 1982) on 32-bit millisecond timestamps.
@@ -332,6 +349,10 @@ func genCase(t *rapid.T) Case {
 	if cd.Audio == "aac" {
 		c.AscExt = rapid.SampledFrom([]int{0, 0, 0, 1, 2, 3, 4}).Draw(t, "ascExt")
 	}
+	if cd.Audio == "aac" && rapid.IntRange(0, 5).Draw(t, "ascChange") == 0 {
+		c.AscChange = true
+	}
+	ascVariant, ascChanges := 0, 0
 	var items []gen.Item
 	serial := uint32(100000)
 	start := genStartTs(t)
@@ -381,6 +402,11 @@ func genCase(t *rapid.T) Case {
 		ats += aStep
 		nAudio++
 	}
+	churnAsc := func(ts uint32) {
+		ascVariant = 1 + (ascVariant+rapid.IntRange(0, 1).Draw(t, "ascNext"))%3
+		items = append(items, gen.Item{Kind: "ash", Ts: ts, Variant: ascVariant})
+		ascChanges++
+	}
 	jump := func() {
 		if c.Wrap || rapid.IntRange(0, 9).Draw(t, "jump") != 0 {
 			return
@@ -421,6 +447,9 @@ func genCase(t *rapid.T) Case {
 		for i := 0; i < n; i++ {
 			emitAudio()
 			jump()
+			if c.AscChange && rapid.IntRange(0, 5).Draw(t, "ascChurnA") == 0 {
+				churnAsc(ats)
+			}
 		}
 	} else {
 		ngops := rapid.IntRange(1, 4).Draw(t, "ngops")
@@ -433,7 +462,7 @@ func genCase(t *rapid.T) Case {
 					items = append(items, gen.Item{Kind: "vsh", Ts: vts, Variant: variant})
 				case 1:
 					if cd.Audio == "aac" {
-						items = append(items, gen.Item{Kind: "ash", Ts: ats})
+						items = append(items, gen.Item{Kind: "ash", Ts: ats, Variant: ascVariant}) // unchanged content
 					}
 				case 2:
 					items = append(items, gen.Item{Kind: "meta", Ts: vts, Variant: variant, Sdf: true})
@@ -470,8 +499,16 @@ func genCase(t *rapid.T) Case {
 				}
 				vts += vStep
 				jump()
+				// a changed AAC configuration, between GOPs or in the middle of one (and of an AAC batch)
+				if c.AscChange && rapid.IntRange(0, 6).Draw(t, "ascChurnV") == 0 {
+					churnAsc(ats)
+				}
 			}
 		}
+	}
+	if c.AscChange && ascChanges == 0 {
+		churnAsc(ats)
+		emitAudio()
 	}
 	c.Items = items
 
@@ -481,6 +518,9 @@ func genCase(t *rapid.T) Case {
 		nts = rapid.IntRange(1, 2).Draw(t, "nTs")
 	}
 	nrtsp = rapid.IntRange(1, 2).Draw(t, "nRtsp")
+	if c.AscChange {
+		nrtsp = 0 // the RTSP leg keeps its configuration constant (see Case.AscChange)
+	}
 	firstMedia := len(pro)
 	var keyIdx []int
 	for i, it := range items {
@@ -520,7 +560,7 @@ func genCase(t *rapid.T) Case {
 			total += len(n.Hdr) + n.Len
 		}
 	}
-	if total <= 48<<10 && rapid.IntRange(0, 2).Draw(t, "udpConsumer") == 0 {
+	if !c.AscChange && total <= 48<<10 && rapid.IntRange(0, 2).Draw(t, "udpConsumer") == 0 {
 		c.Cons = append(c.Cons, Cons{Kind: "rtspu", JoinAt: drawJoin()})
 	}
 	return c
@@ -741,6 +781,9 @@ func classify(c Case) (bool, []string) {
 	}
 	if c.Wrap {
 		labels = append(labels, "rtmp-ts-wraps-2^32")
+	}
+	if c.AscChange {
+		labels = append(labels, "asc-changes-mid-stream")
 	}
 	if cd.Audio == "aac" {
 		labels = append(labels, fmt.Sprintf("asc-bytes:%d", len(ascBytes(cd, c.AscExt))))
